@@ -71,6 +71,9 @@ DIRECTED = [
      "T_SEVEN = 7, T_MEM = -T_SEVEN/2, T_MEM2 = (1-T_SEVEN)/4, T_LAST };",
      ["T_LOW", "T_MID", "T_HIGH", "T_TOP", "T_PEAK", "T_POS", "T_MIX", "T_SUB", "T_SEVEN", "T_MEM", "T_MEM2", "T_LAST"]),
     ("enum class Step { FLAT = -1/2, UP, BACK = -3/2, FWD };", ["FLAT", "UP", "BACK", "FWD"]),
+    # two scoped enumerations of ONE scope that share member names: a name in a value expression is the enumeration's own member
+    ("enum class Small { LO = 1, HI = LO + 2, TOP };", ["LO", "HI", "TOP"]),
+    ("enum class Large { LO = 100, HI = LO * 2, TOP, NEG = -LO, AFTER };", ["LO", "HI", "TOP", "NEG", "AFTER"]),
 ]
 
 
